@@ -84,8 +84,8 @@ def cases(rng, tier):
     for c in _cases(rng, tier):
         yield c
         k += 1
-        if c.mode == 'events' and c.monitor == 'c19_nested' and k % 2 == 0:
-            # every second case again under an observer that retains nothing (seeded change S19l held tail-called expressions
+        if c.mode == 'events' and c.monitor == 'c19_nested' and k % (2 if tier == 'quick' else 4) == 0:
+            # every second (thorough: fourth) case again under an observer that retains nothing (seeded change S19l held tail-called expressions
             # only weakly: invisible to an observer that keeps them alive)
             yield Case(program=c.program, stdin=c.stdin, fs=c.fs, mode='events', tag=c.tag + '-light', monitor='c19_light', skip_model=True,
                        timeout=c.timeout, format_io=c.format_io)
